@@ -396,6 +396,238 @@ class Play:
         return self.L
 
 
+
+class AsyncPlay:
+    """The replica is the leader of every view (fixed leader) and runs WITHOUT synchronous vote
+    verification (`verify=async`): it collects the votes for each of its own blocks while the harness
+    holds vote verifications back at a gate and lets them finish in adversarially chosen orders —
+    oldest last, interleaved with the arrival of the next block's votes, a stale vote for an already
+    certified block finishing after the newer block's votes were stored, duplicates and votes with
+    invalid signatures among the held ones.  The generator keeps a small picture of the collector (held
+    verifications, stored voters, high QC) only to know which block the replica has proposed by now;
+    the expected answers come from the model."""
+
+    def __init__(self, rng, scheme, n, r, rules, cache, style):
+        self.rng, self.scheme, self.n, self.r, self.style = rng, scheme, n, r, style
+        self.q = quorum(n)
+        agg = 1 if rules == "fasthotstuff" else 0
+        self.agg = agg           # under the aggregate rule a plain QC moves the high QC but does not end the view
+        self.L = [f"cfg {scheme} {n} cache={cache} agg={agg}",
+                  f"replica {r} rules={rules} leader=fixed:{r} verify=async", "start"]
+        self.puppets = [i for i in range(1, n + 1) if i != r]
+        self.view = 1            # the replica's view; P<view> is its newest block
+        self.hqc = 0
+        self.closed = False
+        self.held = []           # (block view, signer or None when the signature is bad)
+        self.stored = {1: {r}}   # block view -> voters whose verification finished
+        self.made = set()        # names of votes created so far
+        self.sent = {}           # block view -> puppets whose genuine vote was delivered
+        self.k = 0
+
+    def fresh(self, p):
+        self.k += 1
+        return f"{p}{self.k}"
+
+    def vote_name(self, v, i):
+        nm = f"a_P{v}_{i}"
+        if nm not in self.made:
+            self.made.add(nm)
+            self.L.append(f"create-pc {i} P{v} {nm}")
+        return nm
+
+    def hold(self, on):
+        if on and not self.closed:
+            self.L.append("verify-hold on")
+            self.closed = True
+        elif not on and self.closed:
+            self.L.append("verify-hold off")
+            self.closed = False
+            while self.held:
+                self.finish(self.held.pop(0))
+
+    # the collector as the generator pictures it
+    def finish(self, h):
+        v, signer = h
+        if signer is not None:
+            st = self.stored.setdefault(v, set())
+            if signer not in st:
+                st.add(signer)
+                if len(st) >= self.q:
+                    del self.stored[v]
+                    if v > self.hqc:
+                        self.hqc = v
+                        if v >= self.view and not self.agg:
+                            self.view = v + 1
+                            self.stored[self.view] = {self.r}
+        for b in [b for b in self.stored if b <= self.hqc]:
+            del self.stored[b]
+
+    def arrive(self, v, signer):
+        if v <= self.hqc or v > self.view:
+            return      # block too old (or not proposed yet: the vote is deferred)
+        if self.closed and signer != self.r:
+            self.held.append((v, signer))
+        else:
+            self.finish((v, signer))
+
+    def deliver(self, v, kind=None):
+        rng = self.rng
+        kind = kind or rng.choice(["good"] * 8 + ["dup", "dup", "junk", "wrong-block", "relabel", "nil", "two-signers", "future"])
+        i = rng.choice(self.puppets)
+        if kind == "good":
+            rest = [p for p in self.puppets if p not in self.sent.get(v, set())]
+            if not rest:
+                kind = "dup"
+            else:
+                i = rng.choice(rest)
+                self.sent.setdefault(v, set()).add(i)
+                self.L.append(f"deliver vote {self.vote_name(v, i)} P{v} from={i}")
+                self.arrive(v, i)
+                return
+        if kind == "dup":
+            if self.sent.get(v):
+                i = rng.choice(sorted(self.sent[v]))
+            else:
+                self.sent.setdefault(v, set()).add(i)
+            self.L.append(f"deliver vote {self.vote_name(v, i)} P{v} from={rng.choice([i, i, rng.choice(self.puppets)])}")
+            self.arrive(v, i)
+        elif kind == "junk":
+            x = self.fresh("jz")
+            if self.scheme == "bls12":
+                self.L.append(f"bls {x} pt=junk{rng.randrange(1, 9)} bits={i}")
+            else:
+                self.L.append(f"multi {x} {i}:junk{rng.randrange(1, 9)}")
+            self.L.append(f"deliver vote {x} P{v} from={i}")
+            self.arrive(v, None)
+        elif kind == "wrong-block" and v >= 2:
+            # a genuine signature of the puppet, but over the previous block
+            self.L.append(f"deliver vote {self.vote_name(v - 1, i)} P{v} from={i}")
+            self.arrive(v, None)
+        elif kind == "relabel" and len(self.puppets) >= 2:
+            j = rng.choice([p for p in self.puppets if p != i])
+            x = self.fresh("rl")
+            src = self.vote_name(v, i)
+            if self.scheme == "bls12":
+                self.L.append(f"bls {x} pt={src} bits={j}")
+            else:
+                self.L.append(f"multi {x} {j}:{src}")
+            self.L.append(f"deliver vote {x} P{v} from={j}")
+            self.arrive(v, None)
+        elif kind == "nil":
+            self.L.append(f"deliver vote nil P{v} from={i}")
+        elif kind == "two-signers" and len(self.puppets) >= 2:
+            j = rng.choice([p for p in self.puppets if p != i])
+            x = self.fresh("ts")
+            self.L.append(f"combine {i} {x} {self.vote_name(v, i)} {self.vote_name(v, j)}")
+            self.L.append(f"deliver vote {x} P{v} from={i}")
+        elif kind == "future":
+            # a vote for a block nobody knows: deferred until the next proposal event
+            x = self.fresh("fu")
+            self.L.append(f"block U{x} parent=G view={v + 1} proposer={self.r} qc=genesis")
+            self.L.append(f"create-pc {i} U{x} {x}")
+            self.L.append(f"deliver vote {x} U{x} from={i}")
+
+    def release(self, how=None):
+        if not self.held:
+            return
+        rng = self.rng
+        how = how or rng.choice(["random", "random", "newest", "newest-block", "oldest"])
+        if how == "newest":
+            k = len(self.held)
+        elif how == "oldest":
+            k = 1
+        elif how == "newest-block":
+            top = max(v for v, _ in self.held)
+            k = rng.choice([j for j, (v, _) in enumerate(self.held) if v == top]) + 1
+        else:
+            k = rng.randrange(1, len(self.held) + 1)
+        self.L.append(f"verify-release {k}")
+        self.finish(self.held.pop(k - 1))
+
+    def stale_last(self):
+        """the scenario of the task: all votes of P<v> are held; enough finish to certify it, at least one
+        valid vote stays held; votes of the next block arrive and some finish; THEN the stale one
+        finishes; the next block must still get its certificate from the remaining votes"""
+        rng = self.rng
+        v = self.view
+        self.hold(True)
+        first = len(self.held)
+        order = self.puppets[:]
+        rng.shuffle(order)
+        for i in order:
+            self.deliver(v, "good")
+            if rng.random() < 0.15:
+                self.deliver(v, rng.choice(["dup", "junk"]))
+        # the newest ones finish first; the oldest valid ones stay
+        guard = 0
+        while self.view == v and len(self.held) > first and guard < 40:
+            self.release(rng.choice(["newest", "newest", "random"]))
+            guard += 1
+        if self.view == v:
+            return
+        w = self.view
+        m = rng.randrange(1, self.q)     # votes of the next block stored before the stale vote finishes
+        for _ in range(m):
+            self.deliver(w, "good")
+        for _ in range(m):
+            if self.held and self.view == w:
+                self.release("newest")
+        stale = [j for j, (b, _) in enumerate(self.held) if b < w]
+        for j in reversed(stale if rng.random() < 0.7 else stale[:1]):
+            self.L.append(f"verify-release {j + 1}")
+            self.finish(self.held.pop(j))
+        guard = 0
+        while self.view == w and guard < 40:
+            if len(self.sent.get(w, ())) < len(self.puppets):
+                self.deliver(w, "good")
+            if self.held:
+                self.release("random")
+            guard += 1
+            if not self.held and len(self.sent.get(w, ())) >= len(self.puppets):
+                break
+
+    def run(self, nviews):
+        rng = self.rng
+        if self.style == "stale":
+            for _ in range(nviews):
+                self.stale_last()
+                if rng.random() < 0.3:
+                    self.hold(False)
+            self.hold(False)
+            self.L.append("dump")
+            return self.L
+        steps = 0
+        target = self.view + nviews
+        while self.view < target and steps < 40 * nviews:
+            steps += 1
+            x = rng.random()
+            v = self.view
+            if x < 0.08:
+                self.hold(not self.closed)
+            elif x < 0.12 and not self.closed:
+                self.hold(True)
+            elif x < 0.55:
+                # mostly votes of the newest block, now and then of an older one (stale on arrival)
+                b = v if rng.random() < 0.85 or v == 1 else rng.randrange(max(1, v - 2), v)
+                self.deliver(b)
+            elif x < 0.9:
+                self.release()
+            elif x < 0.93:
+                self.L.append("local-timeout")
+            elif x < 0.96:
+                self.L.append("dump")
+            else:
+                # a flood: every puppet's vote for the newest block, then finish them from the newest end
+                self.hold(True)
+                for _ in self.puppets:
+                    self.deliver(v, "good")
+                for _ in range(rng.randrange(1, len(self.puppets) + 1)):
+                    self.release("newest")
+        self.hold(False)
+        self.L.append("dump")
+        return self.L
+
+
 DROPS = {
     "propose": ["block", "block.qc", "block.qc.sig", "block.qc.hash", "block.parent", "block.commands", "block.timestamp", "agg", "agg.sig"],
     "vote": ["sig", "hash"],
@@ -477,6 +709,19 @@ class ReplicaFam(Family):
                 if self.focus == "c10" and k % 4 != 0:
                     lines = to_wire(lines, rng)
                 yield (f"play-{scheme}-{rules}-n{n}-r{r}-{'adv' if adv else 'honest'}-{k}", lines)
+        if self.focus in ("c09", "c10", "c03", "c07"):
+            # asynchronous vote verification (the replica collects; verifications are held and released)
+            acount = {"c09": {"ecdsa": 150 if quick else 4000, "eddsa": 60 if quick else 2000, "bls12": 12 if quick else 300}}.get(
+                self.focus, {"ecdsa": 20 if quick else 400, "eddsa": 8 if quick else 200, "bls12": 2 if quick else 40})
+            for scheme, cnt in acount.items():
+                for k in range(cnt):
+                    n = rng.choice([4, 4, 4, 5, 7])
+                    r = rng.randrange(1, n + 1)
+                    rules = RULES[k % 2] if k % 8 else RULES[2]
+                    style = "stale" if (k // 2) % 2 == 0 else "walk"
+                    p = AsyncPlay(rng, scheme, n, r, rules, rng.choice([0, 0, 10, 100]), style)
+                    lines = p.run(rng.randrange(2, 6 if scheme != "bls12" else 4))
+                    yield (f"async-{style}-{scheme}-{rules}-n{n}-r{r}-{k}", lines)
 
     def nontrivial_keys(self, lines, impl_out):
         from . import core
@@ -490,7 +735,7 @@ class ReplicaFam(Family):
         for l, o in zip(lines, impl_out):
             if l == "sender-fails on":
                 t["sender-fails"] = t.get("sender-fails", 0) + 1
-            if l.startswith(("deliver", "wire", "local-timeout", "start")):
+            if l.startswith(("deliver", "wire", "local-timeout", "start", "verify-release", "verify-hold off")):
                 k = " ".join(l.split()[:2]) if l.startswith(("deliver", "wire")) else l.split()[0]
                 if "trunc=" in l:
                     for d in l.split("trunc=")[1].split()[0].split(","):
